@@ -7,6 +7,8 @@ CONSTANTS
   RlSizes = {}
   SeekMax = 100000000
   Ops = TRUE
+  Hints = {}
+  IterSingleLine = FALSE
   Emit = FALSE
 SPECIFICATION TSpec
 INVARIANT TPosOK
